@@ -251,10 +251,14 @@ func (c *compiler) compile(slice bigslice.Slice, part partitioner) (tasks []*Tas
 					Shard:    shard,
 					NumShard: len(result.tasks),
 				},
-				Do:     func(readers []sliceio.Reader) sliceio.Reader { return readers[0] },
-				Deps:   []TaskDep{{task, 0, false, ""}},
-				Pragma: task.Pragma,
-				Slices: task.Slices,
+				Do:           func(readers []sliceio.Reader) sliceio.Reader { return readers[0] },
+				Deps:         []TaskDep{{task, 0, false, ""}},
+				NumPartition: part.NumPartition(),
+				Partitioner:  part.Partitioner(),
+				Combiner:     part.Combiner,
+				CombineKey:   part.CombineKey,
+				Pragma:       task.Pragma,
+				Slices:       task.Slices,
 			}
 		}
 		return
